@@ -318,6 +318,42 @@ def run(report, index, tier):
              'does not purge the two table modules the parser module names '
              'and then build a default Parser (observed %r)' % (events,),
              where='parsers/optimize.py:reoptimize')
+    # whichever of the two modules exist are purged - a stale table
+    # module must not survive because the other one is missing
+    for present in (('pkg.lextab_x', 'pkg.yacctab_x'), ('pkg.lextab_x',),
+                    ('pkg.yacctab_x',), ()):
+        evs = []
+        module = Obj('Module', lextab='pkg.lextab_x',
+                     yacctab='pkg.yacctab_x', __name__='pkg.es5',
+                     Parser=('pyfunc', lambda *a_, **k: evs.append(
+                         ('Parser', a_, k))))
+        ev = Evaluator(om, max_steps=5000)
+        ev.functions['validate_imports'] = lambda *n, present=present: (
+            ['/x/%s.py' % x for x in n if x in present],
+            [x for x in n if x not in present])
+        ev.functions['verify_paths'] = lambda paths: list(paths)
+        ev.functions['unlink_modules'] = lambda paths: evs.append(
+            ('unlink', sorted(paths)))
+        ev.functions['getattr'] = py_getattr
+        try:
+            ev.call(reopt, [module])
+        except Raised as e:
+            evs.append(('raises', e.text))
+        unlinked = sorted(p_ for e in evs if e[0] == 'unlink'
+                          for p_ in e[1])
+        before_parser = [e[0] for e in evs]
+        ok = unlinked == sorted('/x/%s.py' % x for x in present) and \
+            before_parser[-1:] == ['Parser'] and 'raises' not in \
+            before_parser
+        r3.check(ok, 'reoptimize with %s present' % (
+            ' and '.join(x.split('.')[-1] for x in present) or
+            'no table module'),
+            'optimize.reoptimize(module), existing table modules: %s' % (
+                list(present),),
+            'the existing table modules are not all removed before the '
+            'parser is rebuilt (observed %r): a stale table would be '
+            'loaded by the optimised parser' % (evs,),
+            where='parsers/optimize.py:reoptimize / purge_tabs')
     events2 = []
     ev = Evaluator(om, max_steps=5000)
     ev.functions['generate_tab_names'] = lambda name, **kw: (
